@@ -187,3 +187,9 @@ for _pid in ("C08", "C18"):
     if "RrProofs.Pins" not in p["modules"]:
         p["modules"] += ["RrProofs.Pins"]
     p["theorems"] += [_PIN_CF]
+
+# C19: the document that is parsed is the whole mapping (readMapping pinned)
+p = PROPS["C19"]
+if "RrProofs.Pins" not in p["modules"]:
+    p["modules"] += ["RrProofs.Pins"]
+p["theorems"] += [T("Pins.readMappingShape", "pin", "readMapping: the whole response body (status 200) or the whole file is returned; no limit, cut or transformation")]
